@@ -602,6 +602,20 @@ func genSigForks(c *ctx, emit func(ev)) {
 					}
 				}
 			}
+			// the small-order grid: every encoding (canonical or not) of a small-order point as key AND as R, with S = 0:
+			// [0]B = R + [k]A holds for some messages, so acceptance hinges on how the ENCODINGS of A and R are treated
+			if rep == 0 {
+				encs := append(append([]string{}, edSmallOrder...), edNonCanonical[0:4]...)
+				encs = append(encs, edNonCanonical[len(edNonCanonical)-2:]...)
+				for _, ah := range encs {
+					for _, rh := range encs {
+						for mi := 0; mi < c.tierFixed(6, 24); mi++ {
+							emit(ev{"op": "EdVerify", "A": B(mustHex(ah)), "sig": B(append(mustHex(rh), make([]byte, 32)...)), "msg": B([]byte{byte(mi), byte(len(ah))}),
+								"valid": false, "cls": "small-order-grid"})
+						}
+					}
+				}
+			}
 			// an honest key plus a small-order point, with signatures made for the honest key: the verdict depends on k mod 8
 			{
 				hp, ok := edDecode(pub)
